@@ -294,6 +294,8 @@ def l2_backend(name, group, aad, sizes, quick=True, paserk=True, pke=True, publi
                                 schema=[("pass", "bytes:1"), ("blob", "bytes:%d" % ln)] if ln else [],
                                 replay_args={"backend": name, "op": "pw", "n": ln}, doc="%s: get_params + pw_unwrap_key on arbitrary bytes of length %d (above the minimum: every parameter block reaches the KDF parameter validation)" % (name, ln)))
         if name in ("v4", "v2"):
+            out["C05"].append(H(group, P + "c05_pbkw_mem_domain", q, timeout=1200, mem=14, mode="lean", replay="playback",
+                                doc="%s PBKW: for every 64-bit memory parameter (time and parallelism fixed at 65792) pw_wrap_key reaches the KDF iff the memory is a multiple of 1024 bytes whose KiB count fits u32 and is >= 8 * parallelism; otherwise it returns an error without calling the KDF" % name))
             out["C04"].append(H(group, P + "c04_pw_unwrap_to_kdf", q, timeout=1500, mem=14, mode="full", replay="native:pw_params",
                                 schema=[("pass", "bytes:1"), ("blob", "bytes:89")], replay_args={"backend": name, "op": "pw", "n": 89},
                                 doc="%s: get_params + pw_unwrap_key on every 89-byte blob (all salts, cost parameters, nonces): no panic between parsing and the entry of Argon2 (the argon2 model keeps the crate's `p_cost * 8` arithmetic); the path ends at the KDF" % name))
@@ -611,7 +613,7 @@ _demote(_v2, ["c04_key_decode_empty", "local_roundtrip_m3_f2", "public_roundtrip
 _demote(_v4, ["c04_key_decode_empty", "c10_pke_key_wrong_len_32", "c08_local_key_codec_n32", "c08_signing_key_codec_public", "c08_signing_key_codec_rederive", "c13_id_transcript_lid"] + ["local_roundtrip_m3_f2", "public_roundtrip_m3_f2", "local_tamper_payload_bit", "local_tamper_w8", "local_tamper_w10", "local_tamper_w6", "local_tamper_w14",
               "public_tamper_payload_bit", "public_tamper_w8", "public_tamper_w12", "rng_fail", "nonce_is_draw", "pie_roundtrip_local", "pie_tamper_w0", "pie_tamper_w1",
               "pke_roundtrip", "pke_tamper_w0", "local_unseal_arbitrary_below", "local_unseal_arbitrary_min", "public_unseal_arbitrary_below", "pie_unwrap_arbitrary_below",
-              "c04_pw_unwrap_to_kdf"])
+              "c04_pw_unwrap_to_kdf", "c05_pbkw_mem_domain"])
 # public-token harnesses: smaller field-sensitivity limit (measured on v4: public_roundtrip 1500 s timeout -> 184 s; it slows
 # PIE/PKE harnesses down, so it is per harness)
 for _tab in (_v4, _v3, _v2, _va, _vs):
